@@ -124,7 +124,7 @@ template<class C, class R> static void rebuild_case(const Pattern &p, hx::Rng &r
 #include <amgcl/value_type/static_matrix.hpp>
 static void block_step_case(const Pattern &p, hx::Rng &rng) { hx::run_case("step-block2x2/smoothed_aggregation/"+p.name, [&]() { typedef amgcl::static_matrix<scalar,2,2> Blk; typedef be::builtin<Blk> BB; typedef be::crs<Blk,ptrdiff_t,ptrdiff_t> BM;
     hx::Rng r2(rng.s); SCrs A=hx::mmatrix(p,r2); auto Am=hx::to_amgcl(A); BM Ab(amgcl::adapter::block_matrix<Blk>(*Am)); co::smoothed_aggregation<BB>::params prm; co::smoothed_aggregation<BB> c(prm);
-    std::shared_ptr<BM> P, R; std::tie(P,R)=c.transfer_operators(Ab); auto Ac=c.coarse_operator(Ab,*P,*R);
+    std::shared_ptr<BM> P, R; try { std::tie(P,R)=c.transfer_operators(Ab); } catch (const amgcl::error::empty_level&) { hx::count("empty coarse level paths"); return; } auto Ac=c.coarse_operator(Ab,*P,*R);
     auto expand=[&](const BM &Mx) { std::vector<std::vector<scalar>> d(Mx.nrows*2,std::vector<scalar>(Mx.ncols*2,scalar(0))); for (size_t I=0;I<Mx.nrows;++I) for (ptrdiff_t k=Mx.ptr[I];k<Mx.ptr[I+1];++k) for (int r=0;r<2;++r) for (int q=0;q<2;++q) d[I*2+r][Mx.col[k]*2+q]=d[I*2+r][Mx.col[k]*2+q]+Mx.val[k](r,q); return d; };
     auto Pd=expand(*P), Rd=expand(*R), Cd=expand(*Ac), Ad=A.dense(); std::vector<scalar> a, b; for (size_t i=0;i<Pd.size();++i) for (size_t j=0;j<Pd[i].size();++j) { a.push_back(Rd[j][i]); b.push_back(Pd[i][j]); }
     hx::prove_eq_vec("block values: R is the adjoint of P (scalar expansion: R = P^T)", a, b);
